@@ -192,6 +192,8 @@ pub enum Step {
     /// store value v of type ty in format fmt (0 bincode, 1 json), then enumerate every fault on the
     /// stored stream and load each corrupted stream
     Disk { ty: u8, v: B, fmt: u8 },
+    /// serialise value v (canonical bytes) of type ty in format fmt; the stream must be the canonical one
+    Store { ty: u8, v: B, fmt: u8 },
     /// one concrete load of a (possibly corrupted) stream
     Load { ty: u8, fmt: u8, stream: B },
     /// load through the fault-injecting serde Deserializer: deliver `v` as (shape 0 seq of u8, 1 borrowed
@@ -243,6 +245,7 @@ impl Step {
             Step::SConv { .. } => "SConv",
             Step::Decode { .. } => "Decode",
             Step::Disk { .. } => "Disk",
+            Step::Store { .. } => "Store",
             Step::Load { .. } => "Load",
             Step::SimFmt { .. } => "SimFmt",
         }
